@@ -121,7 +121,9 @@ def corrupt(kind, lines, fault, rng, X):
     elif fault == "bad_label" and trs and kind in ("pda", "tm"):
         i = rng.choice(trs)
         j = rng.randrange(2, len(lines[i]["toks"]))
-        lines[i]["toks"][j] = rng.choice(["a,X", "ab,XY", "a;XY", "aXY"] if kind == "pda" else ["ab,D", "a,L", "abL", "abc,R"])
+        # ill-formed for THIS format; several of them are well-formed labels of another format
+        lines[i]["toks"][j] = rng.choice(["a,X", "ab,XY", "a;XY", "aXY", "aa,R", "a_,L", "ab,R", "a", "b"] if kind == "pda"
+                                         else ["ab,D", "a,L", "abL", "abc,R", "a,XX", "a,_X", "b,X_", "a", "ab"])
     elif fault == "undeclared_state" and trs:
         i = rng.choice(trs)
         lines[i]["toks"][rng.randrange(2)] = "zz9"
@@ -288,8 +290,11 @@ def drive(task):
             if (k // 2) % task.get("stride", 1) == 0:
                 yield ev
         return
+    kinds = ["dfa", "nfa", "pda", "tm"]
     for i in range(task["count"]):
-        yield case({"kind": "rendered", "tkind": task["tkind"], "seed": task["seed"] * 100000 + i})
+        # the four formats are parsed alternately in one process (a parser must not remember another format's verdicts)
+        k = kinds[(kinds.index(task["tkind"]) + i) % 4]
+        yield case({"kind": "rendered", "tkind": k, "seed": task["seed"] * 100000 + i})
 
 
 def redrive(src):
